@@ -34,7 +34,7 @@ func runC02(c *Ctx) {
 	}})
 	// per-row-group state of the objects whose content goes into pages and index
 	ci := newChainIndex(c.P)
-	for _, s := range c17ResetSpecs() {
+	for _, s := range c17ResetSpecs(c.P) {
 		if strings.HasSuffix(s.Type, "Dictionary") || strings.HasSuffix(s.Type, "ColumnIndexer") {
 			runResetRule(c, "C02.reset", ci, s)
 		}
